@@ -169,6 +169,7 @@ PROPS = {
         assumptions=["the sink obeys the Write contract (accepts at most the slice length)"]),
     "C01": dict(
         module="Flussab.Props.C01", engines=[("cnf", 4000, 200000, "mix"), ("reader", 1500, 50000, "")],
+        audit_observables=True,
         bv_decide_theorems=["multi_scanners_buffer_independent"],
         claim="Where byte arrival is visible it is a theorem: any two DeferredReaders over the same stream - "
               "arbitrary different schedules (short reads, Interrupted), chunk sizes, buffer layouts - answer "
